@@ -26,7 +26,9 @@ fn gen_addrs(r: &mut Rng) -> String {
         };
         let id = r.below(idrange);
         let port = *r.pick(&[0u64, 1, 80, 443, 8080, 65535]);
-        s.push_str(&format!(" {} {} {}", v6 as u8, id, port));
+        // family token 2: an IPv4-mapped IPv6 address (`::ffff:a.b.c.d`) - an IPv6 socket address like any other
+        let fam = if v6 && r.chance(1, 5) { 2 } else { v6 as u8 };
+        s.push_str(&format!(" {} {} {}", fam, id, port));
     }
     s
 }
@@ -52,8 +54,11 @@ pub fn gen(r: &mut Rng, _i: u64) -> String {
     }
 }
 
-fn mk(v6: bool, id: u64, port: u64) -> SocketAddr {
-    let ip: IpAddr = if v6 {
+fn mk(fam: &str, id: u64, port: u64) -> SocketAddr {
+    let v6 = fam != "0";
+    let ip: IpAddr = if fam == "2" {
+        IpAddr::V6(Ipv4Addr::new(10, (id >> 16) as u8, (id >> 8) as u8, id as u8).to_ipv6_mapped())
+    } else if v6 {
         IpAddr::V6(Ipv6Addr::new(0x2001, 0xdb8, 0, 0, 0, 0, (id >> 16) as u16, id as u16))
     } else {
         IpAddr::V4(Ipv4Addr::new(10, (id >> 16) as u8, (id >> 8) as u8, id as u8))
@@ -67,6 +72,10 @@ fn un(a: &SocketAddr) -> String {
             let o = ip.octets();
             format!("0 {} {}", ((o[1] as u64) << 16) | ((o[2] as u64) << 8) | o[3] as u64, a.port())
         }
+        IpAddr::V6(ip) if ip.to_ipv4_mapped().is_some() => {
+            let o = ip.to_ipv4_mapped().unwrap().octets();
+            format!("2 {} {}", ((o[1] as u64) << 16) | ((o[2] as u64) << 8) | o[3] as u64, a.port())
+        }
         IpAddr::V6(ip) => {
             let s = ip.segments();
             format!("1 {} {}", ((s[6] as u64) << 16) | s[7] as u64, a.port())
@@ -77,7 +86,7 @@ fn un(a: &SocketAddr) -> String {
 fn parse_addrs(toks: &[&str]) -> Vec<SocketAddr> {
     toks.chunks(3)
         .filter(|c| c.len() == 3)
-        .map(|c| mk(c[0] == "1", c[1].parse().unwrap_or(0), c[2].parse().unwrap_or(0)))
+        .map(|c| mk(c[0], c[1].parse().unwrap_or(0), c[2].parse().unwrap_or(0)))
         .collect()
 }
 
